@@ -795,8 +795,8 @@ VARIANTS = [
             "        if isinstance(node.func, ast.Name) and node.func.id in (constants.PURE_BUILTIN_FUNCTIONS | frozenset({\"abs\"})):"),
     Variant("evaluator-memoised-by-node", "SILENT", "core", "def _literal_value(node: ast.AST) -> bool:", "@functools.lru_cache(maxsize=1000)\ndef _literal_value(node: ast.AST) -> bool:"),
     Variant("builtin-results-memoised-by-value", "FIRE", "core",
-            "            args = [literal_value(arg) for arg in node.args]\n            if _reveals_set_order(node.func.id, args):\n                raise ValueError(\"The order of a set is not the same in every process\")\n            return getattr(builtins, node.func.id)(*args)",
-            "            args = tuple(literal_value(arg) for arg in node.args)\n            if _reveals_set_order(node.func.id, args):\n                raise ValueError(\"The order of a set is not the same in every process\")\n            return _memo_call(getattr(builtins, node.func.id), args)", "R15.8",
+            "            args = [literal_value(arg) for arg in node.args]\n            if _reveals_set_order(node.func.id, args):\n                raise ValueError(\"The order of a set is not the same in every process\")\n            if _is_too_costly_to_call(node.func.id, args, is_method=False):\n                raise ValueError(\"The value is too large to be computed while formatting\")\n            return getattr(builtins, node.func.id)(*args)",
+            "            args = tuple(literal_value(arg) for arg in node.args)\n            if _reveals_set_order(node.func.id, args):\n                raise ValueError(\"The order of a set is not the same in every process\")\n            if _is_too_costly_to_call(node.func.id, args, is_method=False):\n                raise ValueError(\"The value is too large to be computed while formatting\")\n            return _memo_call(getattr(builtins, node.func.id), args)", "R15.8",
             extra=[("core", "def _literal_value(node: ast.AST) -> bool:", "@functools.lru_cache(maxsize=1000, typed=True)\ndef _memo_call(function, args):\n    return function(*args)\n\n\ndef _literal_value(node: ast.AST) -> bool:")]),
     Variant("table-eq-as-lambda", "SILENT", "constants", "    ast.Eq: operator.eq,\n", "    ast.Eq: lambda a, b: a == b,\n"),
     Variant("table-reordered", "SILENT", "constants", "    ast.Eq: operator.eq,\n    ast.NotEq: operator.ne,\n", "    ast.NotEq: operator.ne,\n    ast.Eq: operator.eq,\n"),
